@@ -266,6 +266,100 @@ fn strategy(bes: &'static [Be]) -> BoxedStrategy<Case> {
         .boxed()
 }
 
+// ---------------------------------------------------------------------------
+// worker threads on one shared Module, each on its own window of one arena cut by Scratch::split_mut
+// (the mechanism the multi-thread entry points use), windows of exactly the operation's query:
+// HAL-level, so that ring degrees below 8 (window lengths that are not multiples of 64 bytes) occur
+// ---------------------------------------------------------------------------
+
+#[derive(Clone, Debug, Serialize, Deserialize)]
+pub struct SplitCase {
+    pub be: Be,
+    pub log_n: u8,
+    pub threads: u8,
+    pub size: u8,
+    pub base2k: u8,
+    pub seed: u64,
+}
+
+fn split_run<B: FullBackend>(m: &poulpy_hal::layouts::Module<B>, c: &SplitCase) -> Result<(usize, bool), String>
+where
+    ScratchOwned<B>: ScratchOwnedAlloc<B> + ScratchOwnedBorrow<B>,
+{
+    use poulpy_hal::api::{VecZnxNormalize, VecZnxNormalizeTmpBytes};
+    use poulpy_hal::layouts::{VecZnx, ZnxView, ZnxViewMut};
+    let n = 1usize << c.log_n;
+    let (t, size, b) = (c.threads as usize, c.size as usize, c.base2k as usize);
+    let q = m.vec_znx_normalize_tmp_bytes();
+    let mut rng = pzv_common::model::SplitMix::new(c.seed);
+    let inputs: Vec<VecZnx<Vec<u8>>> = (0..t)
+        .map(|_| {
+            let mut v = VecZnx::alloc(n, 1, size);
+            for j in 0..size {
+                for x in v.at_mut(0, j).iter_mut() {
+                    // un-normalised digits (up to 8 bits above the radix)
+                    *x = rng.signed(((b + 8).min(62)) as u32);
+                }
+            }
+            v
+        })
+        .collect();
+    // alone: own scratch of exactly the query
+    let solo: Vec<Vec<i64>> = inputs
+        .iter()
+        .map(|a| {
+            let mut s = ScratchOwned::<B>::alloc(q);
+            let mut r = VecZnx::alloc(n, 1, size);
+            m.vec_znx_normalize(&mut r, b, 0, 0, a, b, 0, s.borrow());
+            r.raw().to_vec()
+        })
+        .collect();
+    // together: one arena, one window of exactly the query per worker
+    let mut arena = pzv_be::dirty_scratch::<B>(t * q.next_multiple_of(64) + 64);
+    let (wins, _) = arena.borrow().split_mut(t, q);
+    let mut outs: Vec<VecZnx<Vec<u8>>> = (0..t).map(|_| VecZnx::alloc(n, 1, size)).collect();
+    let res = std::thread::scope(|sc| {
+        let hs: Vec<_> = wins
+            .into_iter()
+            .zip(outs.iter_mut())
+            .zip(inputs.iter())
+            .map(|((w, r), a)| sc.spawn(move || m.vec_znx_normalize(r, b, 0, 0, a, b, 0, w)))
+            .collect();
+        hs.into_iter().map(|h| h.join()).collect::<Vec<_>>()
+    });
+    for (i, r) in res.iter().enumerate() {
+        if let Err(e) = r {
+            let msg = e.downcast_ref::<String>().cloned().or_else(|| e.downcast_ref::<&str>().map(|s| s.to_string())).unwrap_or_default();
+            return Err(format!("worker {i} of {t} panicked on its split_mut window of {q} bytes (= vec_znx_normalize_tmp_bytes): {msg}"));
+        }
+    }
+    for (i, (o, s)) in outs.iter().zip(solo.iter()).enumerate() {
+        if o.raw() != &s[..] {
+            return Err(format!("worker {i} of {t}: the result on its split_mut window differs from the result of the same call alone"));
+        }
+    }
+    Ok((q, q % 64 != 0))
+}
+
+pub fn split_test(c0: &SplitCase) -> Verdict {
+    let mut c = c0.clone();
+    // (the smallest ring degree a backend's module supports)
+    c.log_n = c.log_n.min(6).max(c.be.min_log_n());
+    c.threads = c.threads.clamp(2, 8);
+    c.size = c.size.clamp(1, 4);
+    c.base2k = c.base2k.clamp(4, 50);
+    match pzv_be::with_backend!(c.be, c.log_n, |m| split_run(m, &c)) {
+        Ok((_, odd)) => Verdict::pass(true, &["shared_module_split_windows", c.be.name(), if odd { "window_not_multiple_of_64_bytes" } else { "window_multiple_of_64_bytes" }]),
+        Err(e) => Verdict::fail("vec_znx_normalize|split-window-differs-from-solo", format!("backend={}: {e}\ncase={c:?}", c.be.name())),
+    }
+}
+
+fn split_strategy() -> BoxedStrategy<SplitCase> {
+    (prop_oneof![Just(Be::FftRef), Just(Be::FftAvx), Just(Be::NttRef), Just(Be::NttAvx)], 0u8..=6, 2u8..=8, 1u8..=4, 4u8..=50, any::<u64>())
+        .prop_map(|(be, log_n, threads, size, base2k, seed)| SplitCase { be, log_n, threads, size, base2k, seed })
+        .boxed()
+}
+
 pub const BES: &[Be] = &[Be::FftRef, Be::FftAvx, Be::NttRef];
 
 pub fn run_all(ctx: &Ctx) {
@@ -273,10 +367,14 @@ pub fn run_all(ctx: &Ctx) {
     let _ = (&*crate::c15::CTX_FFT_REF, &*crate::c15::CTX_FFT_AVX, &*crate::c15::CTX_NTT_REF);
     // the driver itself runs 16 shards in parallel: every case already executes under oversubscription
     ctx.run_sub("thread_counts_partitions_shared_module", t.pick(320, 4_000), 16, || strategy(BES), test);
+    ctx.run_sub("shared_module_split_scratch_windows", t.pick(2_048, 40_000), 16, split_strategy, split_test);
 }
 
 pub fn replay(ctx: &Ctx, sub: &str, case: &serde_json::Value) -> i32 {
+    if sub == "shared_module_split_scratch_windows" {
+        return ctx.replay_case::<SplitCase, _>(sub, case, split_test);
+    }
     ctx.replay_case::<Case, _>(sub, case, test)
 }
 
-pub const RULE: &str = "cases = (backend in FFT64Ref/FFT64Avx/NTT120Ref, kind in {word op *_multi_thread, fhe_uint_prepare_custom_multi_thread over every (start, count) class into fresh receivers and into receivers that hold another prepared word, 2..7 harness threads sharing one Module + prepared keys + read-only operands with mixed word operations, caller-defined circuits (Node / GetBitCircuitInfo: out[i] = a[p_i] & b[q_i] or the constant 0 with an empty node list) through execute_bdd_circuit_2w_to_1w and its multi-thread form}, thread counts 2..33 and 64/66 (not dividing / exceeding the 32 work items), generated operands and seeds); all cases run while 15 other cases execute concurrently (oversubscription). Oracle: ciphertext bytes equal to the single-threaded / solo run; partial preparation additionally decrypts to the selected bits. non-trivial: every case.";
+pub const RULE: &str = "cases = (backend in FFT64Ref/FFT64Avx/NTT120Ref, kind in {word op *_multi_thread, fhe_uint_prepare_custom_multi_thread over every (start, count) class into fresh receivers and into receivers that hold another prepared word, 2..7 harness threads sharing one Module + prepared keys + read-only operands with mixed word operations, caller-defined circuits (Node / GetBitCircuitInfo: out[i] = a[p_i] & b[q_i] or the constant 0 with an empty node list) through execute_bdd_circuit_2w_to_1w and its multi-thread form}, thread counts 2..33 and 64/66 (not dividing / exceeding the 32 work items), generated operands and seeds); all cases run while 15 other cases execute concurrently (oversubscription). Oracle: ciphertext bytes equal to the single-threaded / solo run; partial preparation additionally decrypts to the selected bits. non-trivial: every case. Sub-check shared_module_split_scratch_windows: (four backends, N from the smallest degree the backend supports to 64, 2..8 worker threads, 1..4 limbs, radix 4..50): the workers share one Module and normalise their own un-normalised input, each on its own window of one arena cut by Scratch::split_mut with windows of exactly vec_znx_normalize_tmp_bytes (not a multiple of 64 bytes for N < 8); every result must equal the result of the same call alone on a scratch of the same size, and no worker may panic.";
